@@ -32,7 +32,11 @@ type SharedPinset struct {
 	trusted map[peer.ID]bool // nil: everyone is trusted (Raft semantics)
 	Log     []ConsOp
 	FailOps int // next n LogPin/LogUnpin fail (consensus unavailable)
-	run     *Run
+	// CommitLatency makes LogPin/LogUnpin take simulated time before the
+	// write lands (a Raft commit is not instantaneous): concurrent callers
+	// then decide on the same pre-state.
+	CommitLatency time.Duration
+	run           *Run
 }
 
 type ConsOp struct {
@@ -115,6 +119,9 @@ func (c *ModelConsensus) Ready(context.Context) <-chan struct{} { return c.ready
 
 func (c *ModelConsensus) log(op string, p *api.Pin) error {
 	s := c.Sh
+	if s.CommitLatency > 0 {
+		time.Sleep(s.CommitLatency)
+	}
 	s.mu.Lock()
 	defer s.mu.Unlock()
 	cp := *p
